@@ -2,7 +2,7 @@ META = {
     "level": "model_checking",
     "technique": "TLA+ model of BufferedFile's read/readline/write loops over a chunking, partially-writing stream (BufferedStream.tla) model-checked by TLC against the stream reference; every bounded behaviour (calls + chunk schedule) emitted by TLC replayed on the real BufferedFile with the same chunking; random call sequences on BufferedFile and ChannelFile objects validated call by call by TLC",
     "text": "TLC explores every interleaving of read(n)/read()/readline(size)/write/flush/close with every chunking of a small stream for unbuffered, line-buffered and sized buffering and checks conservation (nothing lost, duplicated or reordered), that each returned value is the stream reference (lines end at newline, size limits) and that flush/close/line buffering deliver; two seeded spec defects must be caught; each complete model behaviour is replayed on a BufferedFile subclass scripted with the model's chunk sizes; seeded random streams with CR/LF, random chunking/partial writes, all bufsize classes, binary and text mode, BufferedFile and ChannelFile/ChannelStderrFile/ChannelStdinFile over a fake channel are recorded and judged by the trace spec",
-    "note": "trusted: TLC, the scripted stream subclass and fake channel (harness/drivers/files.py); universal-newline ('U') mode rewrites line ends by design and is outside the statement; text mode uses ASCII data (a size limit may split a multi-byte character)",
+    "note": "trusted: TLC, the scripted stream subclass and fake channel (harness/drivers/files.py); universal-newline ('U') mode rewrites line ends by design, so only its line structure is judged (UniversalReadline.tla: a CR LF pair split by the stream's chunking is one line end for readline/readline(size); toggle SizeCheckFirst must be refuted; fixed split-CRLF cases on 'rbU' files, readline only); text mode uses ASCII data (a size limit may split a multi-byte character)",
 }
 import json
 import random
@@ -217,6 +217,58 @@ def random_trace(c, rnd, ChunkStream, big):
             "rchunks": rch, "wchunks": wch}
 
 
+UBASE = {"Alphabet": {10, 13, 97}, "MaxSrc": 4, "MaxOps": 3, "Sizes": {1, 2, 3}, "BufSize": 8192, "SizeCheckFirst": False}
+UINVS = ["LineStructure", "ContentConserved", "PendingMeansEmpty"]
+
+
+def universal(c, ChunkStream):
+    """universal-newline ('U') readers: a CR LF pair is one line end however the stream splits it (UniversalReadline.tla)"""
+    c.mc_holds("UniversalReadline", cfg_text(constants=dict(UBASE, MaxSrc=3 if c.quick else 5), invariants=UINVS), name="universal-readline")
+    c.mc("UniversalReadline", cfg_text(constants=dict(UBASE, MaxSrc=3, MaxOps=2, SizeCheckFirst=True), invariants=["LineStructure"]),
+         expect="LineStructure", name="seeded-size-check-before-trailing-cr")
+    # fixed cases (not sampled): (stream, first chunk, calls); afterwards the file is drained with readline()
+    cases = []
+    for size in range(1, 12):
+        cases.append((b"First line.\r\nSecond.\r\n", 12, [-1, size]))
+    for src in (b"a\r\nb\n", b"\r\n\r\nx", b"ab\r\n\ncd\r"):
+        for cut in range(1, len(src)):
+            for size in (1, 2, 3):
+                cases.append((src, cut, [-1, size]))
+                cases.append((src, cut, [size] * 4))
+    batch = []
+    for src, cut, sizes in cases:
+        f = ChunkStream("rbU", -1, src, [cut, 1 << 20], [])
+        events = []
+        for n in sizes + [-1] * 8:
+            try:
+                r = f.readline() if n < 0 else f.readline(n)
+            except Exception as e:
+                raise Machinery("readline raised on a 'U' mode file: %r" % (e,))
+            events.append({"n": n, "ret": list(as_bytes(r)), "off": f.off, "rbuf": list(f._rbuffer), "cr": bool(f._at_trailing_cr)})
+            if n < 0 and not r:
+                break
+        f._closed = True
+        batch.append({"src": list(src), "cut": cut, "events": events})
+        c.case(key=("universal", src, cut, tuple(sizes)), n=len(events),
+               sample={"src": list(src), "first_chunk": cut, "calls": sizes} if len(batch) == 1 else None)
+    res, _ = c.trace("UniversalReadline_Trace", [{"src": t["src"], "events": t["events"]} for t in batch],
+                     cfg_text(spec="TSpec", constants=UBASE, invariants=["Report"]))
+    if len(res["DONE"]) != len(batch):
+        raise Machinery("universal-newline trace validation consumed %d of %d traces" % (len(res["DONE"]), len(batch)))
+    c.traces += len(batch)
+
+    def describe(tid, clause, row):
+        t = batch[tid - 1]
+        line = row[2]
+        e = t["events"][line - 1]
+        calls = [(x["n"], bytes(x["ret"])) for x in t["events"][:line]]
+        key = "%s/readline/universal/%s" % (clause, "sized" if e["n"] >= 0 else "unlimited")
+        what = ("'U' mode BufferedFile over %r delivered as %r + rest: call %d readline(%s) returned %r - clause %s fails (calls so far %r)"
+                % (bytes(t["src"]), bytes(t["src"][:t["cut"]]), line, e["n"] if e["n"] >= 0 else "", bytes(e["ret"]), clause, calls))
+        return key, what, {"mode": "rbU", "src": t["src"], "first_chunk": t["cut"], "calls": [x["n"] for x in t["events"][:line]]}
+    c.verdicts(res["VERDICT"], describe)
+
+
 def run(c):
     ChunkStream = drv.make_chunk_stream()
     quick = c.quick
@@ -315,11 +367,12 @@ def run(c):
                "calls": [{k: e2[k] for k in ("via", "n", "data", "ret")} for e2 in t["events"][:line]]}
         return key, what, rep
     c.verdicts(verdicts, describe)
+    universal(c, ChunkStream)
     c.rule = ("RP: every complete behaviour of BufferedStream_Gen (streams over {LF, 'a'} up to 3 bytes, 2 calls from read(0..3)/read()/"
               "readline(-1..3) or from write(1-2 bytes)/flush/close, every chunking and partial-write schedule, bufsize 0/1/3: %d behaviours) replayed "
               "on a BufferedFile subclass; TV: seeded random streams (CR/LF mixes, up to 600 bytes, some around 8192) with 1-25 random calls on "
               "BufferedFile / ChannelFile / ChannelStderrFile / ChannelStdinFile, binary and text mode, bufsize in {-1,0,1,2,3,7,64,512,8192,65536}; "
               "distinct = (object kind, mode, buffering class, call, argument class, result class, delivered-to-stream)" % nbeh)
     c.extra["exhaustive"] = True
-    c.assumptions = ["universal-newline mode not exercised (it rewrites line ends by design)", "text-mode data is ASCII",
+    c.assumptions = ["universal-newline mode: only readline sequences on fixed streams with a CR LF pair split by the chunking (line structure, size limit); content equality is not asked of it (it rewrites line ends by design)", "text-mode data is ASCII",
                      "the stream never fails: _read returns b'' only at its end, _write accepts at least one byte"]
